@@ -397,7 +397,7 @@ func (g *genSession) run(cases []Case) (map[int]verdict, string) {
 		if got.Header == nil {
 			got.Header = http.Header{}
 		}
-		want := observeRecorder(genReference(cs, d))
+		want := observeRecorder(genReference(cs, d), http.MethodGet)
 		sl := &slot{ehCalls: ev.EHCalls, ehErr: errors.New("verif: not the injected cause")}
 		if ev.EHIsCause {
 			sl.ehErr = errFail
